@@ -5,6 +5,26 @@
 From Coq Require Import ZArith PrimFloat.
 From PM Require Import Base.Num Base.FloatLib.
 
+(* decimal literal m * 10^e, correctly rounded to nearest-even (for normal
+   results): exact integer for e >= 0; for e < 0 a quotient with > 64
+   significant bits and a sticky bit, rounded once by fl_of_Z *)
+Definition fl_of_dec (m e : Z) : float :=
+  match e with
+  | Z0 => fl_of_Z m
+  | Zpos p => fl_of_Z (m * Z.pow 10 (Zpos p))
+  | Zneg p =>
+      let d := Z.pow 10 (Zpos p) in
+      let a := Z.abs m in
+      if Z.eqb a 0 then 0%float else
+      let s := (64 + Z.log2_up d)%Z in
+      let n := Z.shiftl a s in
+      let q := Z.div n d in
+      let r := Z.modulo n d in
+      let q' := (2 * q + (if Z.eqb r 0 then 0 else 1))%Z in
+      let v := fl_ldexp (fl_of_Z q') (- s - 1) in
+      if Z.ltb m 0 then PrimFloat.opp v else v
+  end.
+
 #[export] Instance FNum : Num := {|
   T := float;
   zero := 0%float; one := 1%float;
@@ -22,6 +42,7 @@ From PM Require Import Base.Num Base.FloatLib.
   natan2 := fun y x => fl_atan2 y x;
   npi := fl_pi;
   of_Z := fun z => fl_of_Z z;
+  of_dec := fun m e => fl_of_dec m e;
   leb := fun x y => PrimFloat.leb x y;
   ltb := fun x y => PrimFloat.ltb x y;
   eqb := fun x y => PrimFloat.eqb x y;
